@@ -258,11 +258,6 @@ def check(ctx):
         st_t = ro.env.vars.get("stopper")
         dflts = sorted({x for x in subterms(st_t or ()) if x[0] == "phi"
                         and x[1] == ("cmp", "is", n("stopper"), c(None))})
-        ok_fresh = (len(dflts) == 1 and is_call(dflts[0][2], "liesel.goose.optim.Stopper")
-                    and dflts[0][3] == n("stopper"))
-        ctx.ob("C20.R2", of, "without a user stopper a NEW Stopper is constructed in the call "
-                             "(its patience is rewritten during the run)", ok_fresh,
-               detail=short(st_t or (), 120), stmt="default stopper " + pretty(st_t or ())[:100])
         # the caller's Stopper is never left with another patience: every write to
         # `.patience` either goes to an object created in this call or writes back the value
         # read from that same object
@@ -273,16 +268,18 @@ def check(ctx):
                 tgt = loc[1]
 
                 def may_be_users(t):
-                    if t == n("stopper"):
-                        return True
+                    """not provably an object created in this call (the caller's stopper,
+                    or a shared module-level default)"""
                     if t[0] == "phi":
                         return may_be_users(t[2]) or may_be_users(t[3])
-                    return False
+                    fresh = is_call(t, "liesel.goose.optim.Stopper", "dataclasses.replace",
+                                    "copy.copy", "copy.deepcopy")
+                    return not fresh
                 if may_be_users(tgt) and v != ("a", S0, "patience"):
                     bad_w.append((nd, v))
-        ctx.ob("C20.R2", of, "the caller's Stopper keeps its patience on every path, also when "
-                             "the call fails half-way (the temporary patience = max_iter goes "
-                             "to a copy)", not bad_w,
+        ctx.ob("C20.R2", of, "the caller's Stopper (and any shared default) keeps its patience "
+                             "on every path, also when the call fails half-way (the temporary "
+                             "patience = max_iter goes to a copy)", not bad_w and S0 is not None,
                detail="; ".join(f"line {nd.lineno}: patience <- {short(v, 60)}" for nd, v in bad_w),
                node=bad_w[0][0] if bad_w else None,
                stmt="caller's stopper rewritten: " + "; ".join(pretty(v)[:60] for _, v in bad_w))
